@@ -65,6 +65,7 @@ theorem old_wrong_iff (sec nsec : Int) (h0 : 0 ≤ nsec) (h1 : nsec < 1000000000
 
 /-- Invariant of the wrapper under the contract (Read is set by `recv`, i.e. after each receive). -/
 def Inv (s : St) : Prop :=
+  (∀ p ∈ s.pool, p.chan = none) ∧
   match s.timer with
   | none => s.read = false
   | some g =>
@@ -77,15 +78,26 @@ def Inv (s : St) : Prop :=
 theorem inv_init : Inv {} := by simp [Inv]
 
 theorem inv_step (s : St) (o : Op) (h : Inv s) : Inv (step s o).1 := by
-  obtain ⟨now, timer, read, deadline, resets, recvd⟩ := s
+  obtain ⟨now, timer, read, deadline, resets, recvd, pool⟩ := s
   cases timer with
   | none =>
     simp only [Inv] at h
-    cases o <;> simp_all [step, Inv]
+    obtain ⟨hp, hr⟩ := h
+    cases o with
+    | tick dt => simp_all [step, Inv]
+    | recv => simp_all [step, Inv]
+    | stop => simp_all [step, Inv]
+    | reset d =>
+      cases pool with
+      | nil => simp_all [step, Inv]
+      | cons g rest =>
+        have hg : g.chan = none := hp g (by simp)
+        have hrest : ∀ p ∈ rest, p.chan = none := fun p hp' => hp p (by simp [hp'])
+        simp_all [step, Inv]
   | some g =>
     obtain ⟨armed, chan⟩ := g
     simp only [Inv] at h
-    obtain ⟨h1, h2, h3, h4, h5⟩ := h
+    obtain ⟨hp, h1, h2, h3, h4, h5⟩ := h
     cases o with
     | tick dt =>
       cases armed with
@@ -103,7 +115,17 @@ theorem inv_step (s : St) (o : Op) (h : Inv s) : Inv (step s o).1 := by
     | recv =>
       cases armed <;> cases chan <;> cases read <;> simp_all [step, Inv]
     | stop =>
-      simp_all [step, Inv]
+      cases armed with
+      | none => simp_all [step, Inv]
+      | some dl =>
+        have hc : chan = none := h1 (by simp)
+        subst hc
+        simp only [step, Inv, Option.isSome_some, if_true]
+        refine ⟨?_, trivial⟩
+        intro p hp'
+        rcases List.mem_cons.mp hp' with rfl | hp'
+        · rfl
+        · exact hp p hp'
 
 /-- every state reachable by any sequence of Reset / time passing / receive / Stop -/
 theorem inv_run (s : St) (os : List Op) (h : Inv s) : Inv (run s os).1 := by
@@ -116,9 +138,9 @@ theorem reset_never_blocks (os : List Op) (d : Nat) :
     (step (run {} os).1 (.reset d)).2 = Out.ok := by
   have h := inv_run {} os inv_init
   generalize (run {} os).1 = s at h
-  obtain ⟨now, timer, read, deadline, resets, recvd⟩ := s
+  obtain ⟨now, timer, read, deadline, resets, recvd, pool⟩ := s
   cases timer with
-  | none => simp [step]
+  | none => cases pool <;> simp [step]
   | some g =>
     obtain ⟨armed, chan⟩ := g
     simp only [Inv] at h
@@ -133,9 +155,9 @@ theorem no_blocked (os : List Op) : Out.blocked ∉ (run {} os).2 := by
     intro s h
     simp only [run, List.mem_cons, not_or]
     refine ⟨?_, ih _ (inv_step s o h)⟩
-    obtain ⟨now, timer, read, deadline, resets, recvd⟩ := s
+    obtain ⟨now, timer, read, deadline, resets, recvd, pool⟩ := s
     cases timer with
-    | none => cases o <;> simp [step]
+    | none => cases o <;> cases pool <;> simp [step]
     | some g =>
       obtain ⟨armed, chan⟩ := g
       simp only [Inv] at h
@@ -151,7 +173,7 @@ theorem not_before_duration (os : List Op) (v : Nat) :
     (step (run {} os).1 .recv).2 = Out.got v → (run {} os).1.deadline ≤ v := by
   have h := inv_run {} os inv_init
   generalize (run {} os).1 = s at h
-  obtain ⟨now, timer, read, deadline, resets, recvd⟩ := s
+  obtain ⟨now, timer, read, deadline, resets, recvd, pool⟩ := s
   cases timer with
   | none => simp [step]
   | some g =>
@@ -163,7 +185,7 @@ theorem not_before_duration (os : List Op) (v : Nat) :
       intro hg
       simp [step] at hg
       subst hg
-      exact h.2.2.2.1 w rfl
+      exact h.2.2.2.2.1 w rfl
 
 /-- **At most one fire per Reset**: the number of received values never exceeds the number of
 Resets (the pending value and an armed timer are mutually exclusive). -/
@@ -173,9 +195,9 @@ def Cnt (s : St) : Prop :=
   | some g => s.recvd + (if g.armed.isSome || g.chan.isSome then 1 else 0) ≤ s.resets
 
 theorem cnt_step (s : St) (o : Op) (hi : Inv s) (h : Cnt s) : Cnt (step s o).1 := by
-  obtain ⟨now, timer, read, deadline, resets, recvd⟩ := s
+  obtain ⟨now, timer, read, deadline, resets, recvd, pool⟩ := s
   cases timer with
-  | none => cases o <;> simp_all [step, Cnt] <;> omega
+  | none => cases o <;> cases pool <;> simp_all [step, Cnt] <;> omega
   | some g =>
     obtain ⟨armed, chan⟩ := g
     simp only [Inv] at hi
@@ -200,7 +222,7 @@ theorem one_fire_per_reset (os : List Op) : (run {} os).1.recvd ≤ (run {} os).
   suffices ∀ s, Inv s → Cnt s → Cnt (run s os).1 by
     have h := this {} inv_init (by simp [Cnt])
     generalize (run {} os).1 = s at h
-    obtain ⟨now, timer, read, deadline, resets, recvd⟩ := s
+    obtain ⟨now, timer, read, deadline, resets, recvd, pool⟩ := s
     cases timer with
     | none => simpa [Cnt] using h
     | some g =>
@@ -219,10 +241,16 @@ theorem fires_after_duration (os : List Op) (d dt : Nat) (hd : d ≤ dt) :
     ∃ v, (step (step (step (run {} os).1 (.reset d)).1 (.tick dt)).1 .recv).2 = Out.got v := by
   have h := inv_run {} os inv_init
   generalize (run {} os).1 = s at h
-  obtain ⟨now, timer, read, deadline, resets, recvd⟩ := s
+  obtain ⟨now, timer, read, deadline, resets, recvd, pool⟩ := s
   have hle : now + d ≤ now + dt := by omega
   cases timer with
-  | none => exact ⟨now + dt, by simp [step, fire, hle]⟩
+  | none =>
+    simp only [Inv] at h
+    cases pool with
+    | nil => exact ⟨now + dt, by simp [step, fire, hle]⟩
+    | cons g rest =>
+      have hg : g.chan = none := h.1 g (by simp)
+      exact ⟨now + dt, by simp [step, fire, hle, hg]⟩
   | some g =>
     obtain ⟨armed, chan⟩ := g
     simp only [Inv] at h
@@ -236,17 +264,17 @@ theorem silent_after_stop (os : List Op) (ticks : List Nat) :
       = Out.none := by
   have hs : (step (run {} os).1 .stop).1.timer = none := by
     generalize (run {} os).1 = s
-    obtain ⟨now, timer, read, deadline, resets, recvd⟩ := s
+    obtain ⟨now, timer, read, deadline, resets, recvd, pool⟩ := s
     cases timer <;> simp [step]
   generalize (step (run {} os).1 .stop).1 = s at hs
   induction ticks generalizing s with
   | nil =>
-    obtain ⟨now, timer, read, deadline, resets, recvd⟩ := s
+    obtain ⟨now, timer, read, deadline, resets, recvd, pool⟩ := s
     simp only at hs; subst hs; simp [step]
   | cons t ts ih =>
     simp only [List.map_cons, List.foldl_cons]
     apply ih
-    obtain ⟨now, timer, read, deadline, resets, recvd⟩ := s
+    obtain ⟨now, timer, read, deadline, resets, recvd, pool⟩ := s
     simp only at hs; subst hs; simp [step]
 
 theorem stopped_timer_is_clean (os : List Op) :
@@ -254,7 +282,49 @@ theorem stopped_timer_is_clean (os : List Op) :
   intro g hg ha
   have h := inv_run {} os inv_init
   simp only [Inv, hg] at h
-  exact h.1 ha
+  exact h.2.1 ha
+
+/-- **The pool is clean**: in every reachable state the time.Timers that successful Stops handed back to
+`timeTimerPool` hold no value — so a Timer that takes one of them at its first Reset starts with an empty channel,
+whatever Timer it served before (the model re-arms a pooled timer *with* its channel: `step`, case `reset` on nil). -/
+theorem pool_is_clean (os : List Op) : ∀ g ∈ (run {} os).1.pool, g.chan = none := by
+  have h := inv_run {} os inv_init
+  exact h.1
+
+/-- … hence nothing of an earlier life shows after Stop and a new Reset: until the new duration has elapsed a receive
+finds nothing -/
+theorem nothing_of_the_past (os : List Op) (d dt : Nat) (hd : dt < d) :
+    (step (step (step (step (run {} os).1 .stop).1 (.reset d)).1 (.tick dt)).1 .recv).2 = Out.none := by
+  have h := inv_run {} os inv_init
+  have h' := inv_step _ .stop h
+  generalize (run {} os).1 = s at h h'
+  obtain ⟨now, timer, read, deadline, resets, recvd, pool⟩ := s
+  have hnot : ¬ (now + d ≤ now + dt) := by omega
+  cases timer with
+  | none =>
+    simp only [step] at h' ⊢
+    simp only [Inv] at h'
+    cases pool with
+    | nil => simp [step, fire, hnot]
+    | cons g rest =>
+      have hg : g.chan = none := h'.1 g (by simp)
+      simp [step, fire, hnot, hg]
+  | some g0 =>
+    obtain ⟨armed, chan⟩ := g0
+    simp only [Inv] at h
+    cases armed with
+    | none =>
+      simp only [step, Option.isSome_none, Bool.false_eq_true, if_false] at h' ⊢
+      simp only [Inv] at h'
+      cases pool with
+      | nil => simp [step, fire, hnot]
+      | cons g rest =>
+        have hg : g.chan = none := h'.1 g (by simp)
+        simp [step, fire, hnot, hg]
+    | some dl =>
+      have hc : chan = none := h.2.1 (by simp)
+      subst hc
+      simp [step, fire, hnot]
 
 /-! Non-vacuity: a concrete history exercising drain, receive and stop. -/
 example : (run {} [.reset 3, .tick 5, .reset 2, .tick 1, .recv, .tick 1, .recv, .stop]).2 =
